@@ -110,23 +110,29 @@ def fetchIndex (cfg : Cfg) (cl : Callers) := download cfg cl.indexStatus false
 (`cacheTransport.RoundTrip`, `!t.etagRequired`) — followed by a consumer that reads to the end and closes -/
 def fetchPackage (cfg : Cfg) (cl : Callers) := download cfg cl.pkgStatus true
 
-/-- several packages one after the other over one network: the next download meets the connections the
-previous one left -/
-def fetchPackages (cfg : Cfg) (cl : Callers) (k : Kind) (sz : Reader → Nat) :
-    List Text → List Conn → List (Result × List Event)
+/-- several packages one after the other over one network, each with a consumer of its own: the next
+download meets the connections the previous one left -/
+def fetchPackages (cfg : Cfg) (cl : Callers) (k : Kind) :
+    List (Text × (Reader → Nat)) → List Conn → List (Result × List Event)
   | [], _ => []
-  | data :: rest, script =>
+  | (data, sz) :: rest, script =>
     let d := fetchPackage cfg cl data k script sz
-    (d.2, d.1.log) :: fetchPackages cfg cl k sz rest d.1.script
+    (d.2, d.1.log) :: fetchPackages cfg cl k rest d.1.script
 
 /-! ## one plain request (no retry transport) -/
 
-/-- `client.Do(req)` for a GET without Range: `none` = an error, else status and body (`http.NoBody` reads
-as the empty stream) -/
-def doGet (data : Text) (k : Kind) (c : Conn) : Option (Nat × Body) :=
+/-- `client.Do(req)` for a GET without Range: `none` = an error, else the status and the body
+(`none` = `http.NoBody`, which net/http hands out for an empty body: reading it is `io.EOF` at once and
+nothing happens on the network) -/
+def doGet (data : Text) (k : Kind) (c : Conn) : Option (Nat × Option Body) :=
   if c.connFail then none else
   let sv := serve data k c none
-  some (sv.1, if sv.2.isEmpty && c.noBody then ⟨[], .clean, [], false, false⟩ else mkBody sv.2 c)
+  some (sv.1, if sv.2.isEmpty && c.noBody then none else some (mkBody sv.2 c))
+
+/-- a consumer loop over the body of such a response: outcome and the classes of the body reads -/
+def drainResp (sz : Nat → Nat) : Option Body → Got × List Res
+  | none => (.ok [], [])
+  | some b => let d := drainBody sz (b.rest.length + 1) 0 b [] []; (d.2.1, d.2.2)
 
 /-! ## the cache transport, ETag-addressed files -/
 
@@ -210,9 +216,9 @@ def retrieve (cl : Callers) (s : Srv) (c : Cache) (script : List XConn) (sz : Na
       match respEtag s x with
       | none => (none, c, rest, [.get none])
       | some fin =>
-        let d := drainBody sz (body.rest.length + 1) 0 body [] []
-        let evs := Ev.get none :: d.2.2.map Ev.body
-        match d.2.1 with
+        let d := drainResp sz body
+        let evs := Ev.get none :: d.2.map Ev.body
+        match d.1 with
         | .ok bs =>
           -- an existing entry wins, the temp file is removed
           if (c.entry fin).isSome then (some fin, c, rest, evs)
@@ -333,8 +339,8 @@ def keyDirect (cl : Callers) (s : Srv) (script : List XConn) (sz : Nat → Nat) 
     | none => (.error, [.get none])
     | some (code, body) =>
       if code < cl.keyLo ∨ code > cl.keyHi then (.error, [.get none]) else
-      let d := drainBody sz (body.rest.length + 1) 0 body [] []
-      ((match d.2.1 with | .ok bs => .ok bs | _ => .error), Ev.get none :: d.2.2.map Ev.body)
+      let d := drainResp sz body
+      ((match d.1 with | .ok bs => .ok bs | _ => .error), Ev.get none :: d.2.map Ev.body)
 
 def keyOp (cl : Callers) (mode : Mode) (hasMemo : Bool) (s : Srv) (c : Cache)
     (script : List XConn) (sizes : List Nat) : Ans × Cache × List Ev :=
